@@ -126,6 +126,10 @@ type GenCtx struct {
 	Defs map[string]*Node
 	// NoValue forbids the value keyword (PUT), NoKey forbids key (REMOVE)
 	NoValue, NoKey bool
+	// Exotic adds constructs whose value the reference evaluator does not
+	// define (substr, JSON access, distances, conversions of arbitrary text,
+	// row-dependent divisors, invalid patterns): differential checks only
+	Exotic bool
 	// RefBias: percentage of expression draws that use an alias of the wanted
 	// type when one is in scope
 	RefBias int
@@ -187,6 +191,9 @@ func (c *GenCtx) GenText(t *rapid.T, depth int) *Node {
 	if r := c.biasedRef(t, TyText); r != nil {
 		return r
 	}
+	if c.Exotic && depth > 0 && rapid.IntRange(0, 4).Draw(t, "exoticText") == 0 {
+		return c.exoticText(t, depth)
+	}
 	max := 7
 	if depth <= 0 {
 		max = 2
@@ -236,6 +243,9 @@ func (c *GenCtx) GenInt(t *rapid.T, depth int) *Node {
 	if r := c.biasedRef(t, TyInt); r != nil {
 		return r
 	}
+	if c.Exotic && depth > 0 && rapid.IntRange(0, 4).Draw(t, "exoticInt") == 0 {
+		return c.exoticInt(t, depth)
+	}
 	max := 6
 	if depth <= 0 {
 		max = 2
@@ -278,6 +288,9 @@ var floatLits = []string{"0.5", "1.5", "2.0", "0.25", "2.5", "3.0", "0.75", "10.
 func (c *GenCtx) GenFloat(t *rapid.T, depth int) *Node {
 	if r := c.biasedRef(t, TyFloat); r != nil {
 		return r
+	}
+	if c.Exotic && depth > 0 && rapid.IntRange(0, 4).Draw(t, "exoticFloat") == 0 {
+		return c.exoticFloat(t, depth)
 	}
 	max := 5
 	if depth <= 0 {
@@ -426,6 +439,9 @@ func (c *GenCtx) GenBool(t *rapid.T, depth int) *Node {
 		}
 		return Bin("^=", l, rr)
 	case 3: // regexp
+		if c.Exotic && rapid.IntRange(0, 3).Draw(t, "exoticRegex") == 0 {
+			return Bin("~=", c.GenText(t, depth-1), Str(rapid.SampledFrom([]string{"[", "(a", "*", "a{2,1}", "\\", "(?i)A", "\\d+"}).Draw(t, "badRegex")))
+		}
 		return Bin("~=", c.GenText(t, depth-1), Str(rapid.SampledFrom(regexPool).Draw(t, "regex")))
 	case 4: // numeric comparison
 		op := rapid.SampledFrom([]string{"=", "!=", "<", "<=", ">", ">="}).Draw(t, "numCmpOp")
@@ -484,4 +500,97 @@ func Evaluable(n *Node, pairs []Pair, defs map[string]*Node) bool {
 		}
 	}
 	return true
+}
+
+// ---- exotic constructs (no reference semantics) ---------------------------
+
+func (c *GenCtx) fieldOrLit(t *rapid.T) *Node {
+	switch rapid.IntRange(0, 2).Draw(t, "fieldOrLit") {
+	case 0:
+		if !c.NoKey {
+			return Key()
+		}
+	case 1:
+		if !c.NoValue {
+			return Value()
+		}
+	}
+	return Str(c.textLiteral(t))
+}
+
+func (c *GenCtx) exoticText(t *rapid.T, depth int) *Node {
+	switch rapid.IntRange(0, 6).Draw(t, "exoticTextForm") {
+	case 0:
+		return Call("substr", c.GenText(t, depth-1), Int(int64(rapid.IntRange(0, 4).Draw(t, "subA"))), Int(int64(rapid.IntRange(0, 5).Draw(t, "subB"))))
+	case 1:
+		return Call("str", c.GenFloat(t, depth-1))
+	case 2:
+		n := Field(Call("json", c.fieldOrLit(t)), rapid.SampledFrom([]string{"a", "s", "arr", "o", "zz"}).Draw(t, "jsonKey"))
+		if rapid.Bool().Draw(t, "jsonDeep") {
+			if rapid.Bool().Draw(t, "jsonIdx") {
+				return Index(n, int64(rapid.IntRange(0, 2).Draw(t, "jsonIdxN")))
+			}
+			return Field(n, rapid.SampledFrom([]string{"k", "n"}).Draw(t, "jsonKey2"))
+		}
+		return n
+	case 3:
+		return Index(c.GenListText(t), int64(rapid.IntRange(0, 3).Draw(t, "splitIdx")))
+	case 4:
+		return Call("join", Str(","), c.GenFloat(t, depth-1), c.fieldOrLit(t))
+	case 5:
+		return Call("str", Call("is_int", c.fieldOrLit(t)))
+	default:
+		return Call("upper", Call("str", c.GenInt(t, depth-1)))
+	}
+}
+
+func (c *GenCtx) exoticInt(t *rapid.T, depth int) *Node {
+	switch rapid.IntRange(0, 5).Draw(t, "exoticIntForm") {
+	case 0:
+		return Call("int", c.GenText(t, depth-1))
+	case 1:
+		return Bin("/", c.GenInt(t, depth-1), c.GenInt(t, depth-1))
+	case 2:
+		return Call("len", c.GenListText(t))
+	case 3:
+		return Call("int", Field(Call("json", c.fieldOrLit(t)), "a"))
+	case 4:
+		return Call("int", c.GenFloat(t, depth-1))
+	default:
+		return Call("strlen", c.GenFloat(t, depth-1))
+	}
+}
+
+func (c *GenCtx) exoticFloat(t *rapid.T, depth int) *Node {
+	switch rapid.IntRange(0, 4).Draw(t, "exoticFloatForm") {
+	case 0:
+		return Call("float", c.GenText(t, depth-1))
+	case 1:
+		return Bin("/", c.GenFloat(t, depth-1), c.GenNum(t, depth-1))
+	case 2:
+		f := rapid.SampledFrom([]string{"l2_distance", "cosine_distance"}).Draw(t, "distFn")
+		return Call(f, c.exoticVec(t), c.exoticVec(t))
+	case 3:
+		return Call("float", Field(Call("json", c.fieldOrLit(t)), "a"))
+	default:
+		return Bin("*", c.GenFloat(t, depth-1), Float("0.1"))
+	}
+}
+
+func (c *GenCtx) exoticVec(t *rapid.T) *Node {
+	switch rapid.IntRange(0, 3).Draw(t, "vecForm") {
+	case 0:
+		return c.GenListInt(t)
+	case 1:
+		return Call("split", c.fieldOrLit(t), Str(","))
+	case 2:
+		n := rapid.IntRange(1, 3).Draw(t, "fvecN")
+		args := make([]*Node, n)
+		for i := range args {
+			args[i] = c.GenFloat(t, 0)
+		}
+		return Call(rapid.SampledFrom([]string{"float_list", "flist", "list"}).Draw(t, "fvecFn"), args...)
+	default:
+		return Call("list", c.fieldOrLit(t), Int(2))
+	}
 }
